@@ -12,8 +12,8 @@ Canonical, space-free dump (the same text `harness/src/ops_imports.rs` prints):
     both:     err <Err>
 
 After ` ## ` the same dump computed by the executable specification (`Spec/Imports.lean`) as
-`spec=<dump with '_' for the blank>` and `hyp=1|0` (0: the data directory entry does not exist, where
-the property's wording asks for `Null` and the code answers `Bounds`).
+`spec=<dump with '_' for the blank>` and `hyp=1` (the theorems of `Thm/C09.lean` hold for every view,
+also when the data directory entry does not exist: `Null`, `C09_missing_entry_null`).
 A trailing token after `dump` (the generator's expectation, used by the Python oracle) is ignored.
 -/
 namespace Pelite.Driver
@@ -90,10 +90,9 @@ def underscore (s : String) : String := s.map (fun c => if c == ' ' then '_' els
 
 def importsOp (img : Option Img) (fam k : String) : String :=
   withView img k fun v =>
-    let (m, s, idx) := if fam == "imports" then (importsDump modelBackend v, importsDump specBackend v, dirImport)
-      else (iatDump modelBackend v, iatDump specBackend v, dirIAT)
-    let hyp := if (v.dataDir idx).isSome then "1" else "0"
-    s!"{m} ## spec={underscore s} hyp={hyp}"
+    let (m, s) := if fam == "imports" then (importsDump modelBackend v, importsDump specBackend v)
+      else (iatDump modelBackend v, iatDump specBackend v)
+    s!"{m} ## spec={underscore s} hyp=1"
 
 def dispatchImports : Handler := fun st fam a =>
   match fam, a with
